@@ -127,6 +127,8 @@ type Engine struct {
 	unwindViolation string
 	freezeGlobalValues bool
 	schedOnlyChan      bool
+	files              map[string]string
+	syncMaps           map[*value]*omap
 }
 
 type Stats struct {
@@ -259,6 +261,8 @@ func (e *Engine) resetPath(prefix []Decision) {
 	e.fbCache = nil
 	e.unwindViolation = ""
 	e.schedOnlyChan = false
+	e.files = nil
+	e.syncMaps = nil
 	e.MaxForks = 100000
 	// fresh term table per path keeps memory bounded; variable names are
 	// deterministic per path so solver declarations can be reused.
